@@ -25,11 +25,47 @@ def decl_of(q):
     return out
 
 
+# The proc-macro entry points (qty-macros/src/lib.rs) are glue the translator does not
+# translate: rs2j runs parse_item / analyze / parse_args / codegen in the order
+# `quantity` does, and EnumIter is modelled as "iterate in declaration order".  Their
+# bodies (signature + statements, line numbers and attributes dropped) are pinned; a
+# change there breaks the tie and has to be looked at.
+GLUE_PINS = {"derive_variants_as_constants": "4c5dc30d30aef268", "derive_enum_iter": "068dc0dc65fc9e8d", "quantity": "d9de7f9849607625"}
+
+
+def _strip_lines(x):
+    if isinstance(x, dict):
+        return {k: _strip_lines(v) for k, v in x.items() if k not in ("line", "attrs")}
+    if isinstance(x, list):
+        return [_strip_lines(v) for v in x]
+    return x
+
+
+def check_glue(d):
+    import hashlib
+    f = d["files"].get("qty-macros/src/lib.rs")
+    if f is None:
+        raise TieBroken("qty-macros/src/lib.rs is missing")
+    seen = {}
+    for it in f["items"]:
+        if it["k"] == "fn":
+            seen[it["sig"]["name"]] = hashlib.sha256(json.dumps(_strip_lines({"sig": it["sig"], "body": it["body"]}), sort_keys=True).encode()).hexdigest()[:16]
+    for name, h in GLUE_PINS.items():
+        if seen.get(name) != h:
+            raise TieBroken(f"qty-macros/src/lib.rs: proc-macro entry point `{name}` " + ("is gone" if name not in seen else "changed")
+                            + " (line " + str(next((it["line"] for it in f["items"] if it["k"] == "fn" and it["sig"]["name"] == name), "?")) + "): the translator assumes quantity = parse_item; analyze; "
+                            "parse_args; codegen and EnumIter = declaration order")
+    extra = sorted(set(seen) - set(GLUE_PINS))
+    if extra:
+        raise TieBroken(f"qty-macros/src/lib.rs: new proc-macro entry point(s) {extra} are not modelled")
+
+
 def main():
     jpath, repo, outdir = sys.argv[1], sys.argv[2], sys.argv[3]
     d = json.load(open(jpath, encoding="utf-8"))
     changed = []
     try:
+        check_glue(d)
         files = {}
         files["Prefixes.v"] = tables.emit_prefixes(d)
         entries, templates = tables.collect_catalogue(d)
